@@ -91,6 +91,7 @@ RULES = {
     "render-focus-path": "render(root, focus=True): every leaf rendered with focus=True lies on the focus path at that moment and the focus leaf, if rendered, is rendered with focus=True; render(root, focus=False): no leaf is rendered with focus=True; neither raises",
     "click-focus": "a button-1 press on a cell where leaf X is drawn raises nothing and, for every container on the way from the root to X whose child on that way reports selectable(), makes that child the container's focus",
     "focus-path-roundtrip": "set_focus_path(p) for a path p read earlier by get_focus_path() (no contents edit in between) restores p and the same focus leaf; set_focus_path of any valid path makes it a prefix of get_focus_path(); an invalid path (bad position, or continuing below a leaf) raises IndexError",
+    "random-histories": "every clause above, evaluated at every step of seeded random histories on seeded random nestings of depth <= 3 (leaves S/U/E); non-exhaustive; failures carry the clause in `clause` and `sig`",
     "positions-enumerable": "iter(container) yields exactly the valid positions of the reference tree in order, len(container.contents) is their number, and for a Frame iter(frame.contents) yields the parts present",
 }
 
@@ -561,8 +562,10 @@ class H:
                 # Oracle note: a ListBox completes its deferred "first selectable" focus choice on the first
                 # keypress *or* render; in mode B that shows up as a focus change during an unhandled key.  The
                 # statement only requires the key to come back, so ListBox focus changes are not held against it.
+                # The completion also calls move_cursor_to_coords on the new focus widget, which may re-choose the
+                # focus inside that item: no ListBox on the focus path -> the clause applies.
                 moved = [c for c in changed if self.nodes[c].kind != "ListBox"]
-                if moved:
+                if moved and not any(n.kind == "ListBox" for n in chain0):
                     why, sig = f"{key!r} is bound to no command and came back, yet the focus of containers {moved} changed", "unhandled-moved-focus"
         self.rec("unhandled-key-unchanged", not why, why, sig, nontrivial=True, key=key)
         # arrows move focus only onto selectable children
@@ -872,6 +875,25 @@ class H:
             nontrivial=bool(path),
             read_after_step=i0,
         )
+        if ok and self.mode == "A":
+            # the path was read in a settled state (after a render): restoring it must survive the next render too
+            CanvasCache.clear()
+            try:
+                self.root.widget.render(ROOT_SIZE, focus=True)
+                got2 = self.root.base.get_focus_path()
+            except Exception:  # noqa: BLE001  (reported by render-focus-path)
+                return
+            finally:
+                CanvasCache.clear()
+            end2 = self.chain()[-1]
+            self.rec(
+                "focus-path-roundtrip",
+                got2 == path and end2 is leaf,
+                f"path {path!r} read after step {i0} (settled by a render) and written back after step {len(self.ops_done)}: after the next render get_focus_path() = {got2!r}, focus leaf {end2.name or end2.kind}",
+                "roundtrip-after-render",
+                nontrivial=bool(path),
+                read_after_step=i0,
+            )
 
     # ------------------------------------------------------------------ driver for one history
     def execute(self, ops):
@@ -1100,9 +1122,11 @@ class Acc:
         self.fails = {}  # check -> {sig: [count, shortest detail]}
         self.samples = {}
 
-    def add(self, h, ops):
+    def add(self, h, ops, as_check=None):
         per = {}
         for check, ok, why, sig, nontrivial, extra in h.out:
+            if as_check is not None:
+                sig, extra, check = f"{check}:{sig}", dict(extra, clause=check), as_check
             self.ev[check] = self.ev.get(check, 0) + 1
             per.setdefault(check, False)
             if nontrivial:
@@ -1168,7 +1192,7 @@ def _task(t):
                     for _s in range(length):
                         h, done = run_one(tree, mode, ops)
                         if ops or not n:
-                            acc.add(h, list(ops))
+                            acc.add(h, list(ops), "random-histories")
                         n += 1
                         if not done:
                             break
@@ -1178,7 +1202,7 @@ def _task(t):
                         ops = [*ops, r.choice(heads) if heads and r.random() < 0.45 else r.choice(cand)]
                     else:
                         h, done = run_one(tree, mode, ops)
-                        acc.add(h, list(ops))
+                        acc.add(h, list(ops), "random-histories")
                         n += 1
     return acc.dump(), n
 
@@ -1193,13 +1217,15 @@ PAIRS = [
 ]
 
 
-def _small_flat():
+def _small_flat(quick=False):
     out = []
     for t in flat_trees():
         if t[0] == "Frame":
-            if t[1] == "S":
+            if t[1] == "S" and not (quick and "U" in t[2:]):
                 out.append(t)
-        elif len(t[-1]) <= 2 or t[0] == "Overlay":
+        elif t[0] == "Overlay":
+            out.append(t)
+        elif len(t[-1]) <= 2 and not (quick and t[0] == "ListBox" and t[1] == "L"):
             out.append(t)
     return out
 
@@ -1217,6 +1243,7 @@ def _tasks(tier, seed):
         tasks.append((("explore", tree, mode, levels), cost * (1 + size)))
 
     if tier == "quick":
+        small = _small_flat(quick=True)
         for t in flat:
             for mode in "AB":
                 ex(t, mode, "F")
@@ -1248,20 +1275,20 @@ def _tasks(tier, seed):
         for i, t in enumerate(nested):
             for mode in "AB":
                 ex(t, mode, "F")
-            if i % 2 == 0:
-                ex(t, "AB"[(i // 2) % 2], "RO")
+            if i % 3 == 0:
+                ex(t, "AB"[(i // 3) % 2], "RO")
         for i, t in enumerate(d3):
             for mode in "AB":
                 ex(t, mode, "F")
             if i % 4 == 0:
                 ex(t, "AB"[(i // 4) % 2], "RO")
-        for i in range(64):
-            tasks.append((("random", seed * 1000 + i, 12, 6, 6), 10**6))
+        for i in range(48):
+            tasks.append((("random", seed * 1000 + i, 10, 5, 6), 10**6))
         bound = (
             f"{len(flat)} flat containers (0-3 leaves S/U; Frame parts; Overlay): all histories of length <=2 (full alphabet, then reduced), modes A and B; "
             f"{len(small)} of them (<=2 leaves): all histories of two reduced-alphabet operations followed by one key or click, one mode each; {len(PAIRS)} two-level nestings: length <=2 (full, reduced), both modes; "
-            f"{len(nested)} two-level nestings: every single operation of the full alphabet in both modes, every second one also every reduced operation followed by a key or click; "
-            f"{len(d3)} three-level nestings: single operations (full) in both modes, every fourth also reduced operation + key/click; 768 seeded random depth-3 trees x 6 histories of length 6 (non-exhaustive)"
+            f"{len(nested)} two-level nestings: every single operation of the full alphabet in both modes, every third one also every reduced operation followed by a key or click; "
+            f"{len(d3)} three-level nestings: single operations (full) in both modes, every fourth also reduced operation + key/click; 480 seeded random depth-3 trees x 5 histories of length 6 (non-exhaustive)"
         )
     return tasks, bound
 
@@ -1278,7 +1305,7 @@ def run(tier="quick", seed=0):
     cpu_s = round(sum(os.times()[:4]) - cpu0, 1)
     checks = {}
     for name in RULES:
-        c = Check(f"{ID}/{name}", RULES[name], exhaustive=True, bound=bound + f"; root size {ROOT_SIZE}")
+        c = Check(f"{ID}/{name}", RULES[name], exhaustive=name != "random-histories", bound=bound + f"; root size {ROOT_SIZE}")
         c.t0 = t0
         checks[name] = c
     fails = {}
@@ -1316,7 +1343,11 @@ def replay(check_name, case):
     name = check_name.split("/", 1)[-1]
     with _Env():
         h, done = run_one(case["tree"], case["mode"], case["ops"])
-    hits = [(why, sig) for check, ok, why, sig, _nt, _extra in h.out if check == name and not ok and (not case.get("sig") or sig == case.get("sig"))]
+    want_sig = case.get("sig")
+    if name == "random-histories":
+        name = case.get("clause", "")
+        want_sig = want_sig.split(":", 1)[-1] if want_sig else want_sig
+    hits = [(why, sig) for check, ok, why, sig, _nt, _extra in h.out if check == name and not ok and (not want_sig or sig == want_sig)]
     if hits:
         return {"outcome": "confirmed", "detail": {"why": hits[0][0], "sig": hits[0][1], "tree": case["tree"], "mode": case["mode"], "ops": case["ops"]}}
     return {"outcome": "not-reproduced", "detail": {"completed": done, "recorded": [(c, ok, sig) for c, ok, _w, sig, _n, _e in h.out][:40]}}
